@@ -108,21 +108,12 @@ def represents(matches, ghost, direction):
                        and all(p.strand == direction for p in matches[j].parts)))
 
 
-def frame_invariant(frame):
-    def invariant(matches, start, seq, direction, offset, minimum_length, record_length, _i):
-        s = open_start(_i, seq, frame)
-        return (represents(matches, found(_i, seq, frame, direction, offset, minimum_length, record_length), direction)
-                and ((start is None) == (s == -1)) and implies(start is not None, start == s)
-                and (s == -1 or (frame <= s and s < frame + 3 * _i)))
-    return invariant
-
-
 @spec
-def inv0(matches, start, seq, direction, offset, minimum_length, record_length, _i):
-    s = open_start(_i, seq, 0)
-    return (represents(matches, found(_i, seq, 0, direction, offset, minimum_length, record_length), direction)
+def frame_inv(matches, start, seq, frame, direction, offset, minimum_length, record_length, _i):
+    s = open_start(_i, seq, frame)
+    return (represents(matches, found(_i, seq, frame, direction, offset, minimum_length, record_length), direction)
             and ((start is None) == (s == -1)) and implies(start is not None, start == s)
-            and (s == -1 or (0 <= s and s < 3 * _i)))
+            and (s == -1 or (frame <= s and s < frame + 3 * _i)))
 
 
 @contract(f"{FILE}::scan_orfs", props=["C15"])
@@ -131,10 +122,32 @@ class ScanOrfs:
     The three frames are the three iterations of the outer loop (unrolled)."""
     params = {"seq": Str, "direction": OneOf(Const(1), Const(-1)), "offset": Int, "minimum_length": Int,
               "record_length": Opt(Int)}
+    budget_s = 900
 
     def requires(seq, direction, offset, minimum_length, record_length):
         return offset >= 0 and (record_length is None or (record_length > 0 and len(seq.upper()) <= record_length))
 
-    loops = {1: Loop(invariant=inv0, types={"matches": SeqOf(ORF_LOC), "start": Opt(Int), "i": Int, "codon": Str,
+    loops = {1: Loop(invariant=frame_inv, types={"matches": SeqOf(ORF_LOC), "start": Opt(Int), "i": Int, "codon": Str,
                                             "end": Int, "loc_start": Int, "loc_end": Int})}
     unroll = 3
+    ensures = {
+        "reports-exactly-the-orfs-of-the-three-frames": lambda seq, direction, offset, minimum_length, record_length, result:
+            all_found(result, found(codons(seq, 2), seq.upper(), 2, direction, offset, minimum_length, record_length),
+                      direction),
+        "ordered-by-position": lambda result:
+            forall(range(0, len(result)), lambda i: forall(range(0, len(result)), lambda j: implies(
+                i <= j, low_coordinate(result[i]) <= low_coordinate(result[j])))),
+    }
+
+
+@spec
+def low_coordinate(loc):
+    return min(min(p.start for p in loc.parts), max(p.end for p in loc.parts))
+
+
+@spec
+def all_found(result, ghost, direction):
+    """same number of locations, and every reported location is one of the expected ones with the strand"""
+    return (len(result) == len(ghost)
+            and forall(range(0, len(result)), lambda j: exists(range(0, len(ghost)), lambda m:
+                       loc_pieces(result[j]) == ghost[m]) and all(p.strand == direction for p in result[j].parts)))
